@@ -391,6 +391,8 @@ static MARKER: Mutex<Option<std::fs::File>> = Mutex::new(None);
 /// is about to execute is written there (overwriting the previous one).
 pub fn mark_case(desc: &str) {
     use std::io::{Seek, SeekFrom};
+    // the simulator installs and removes its own panic hook around every run, which drops ours
+    quiet_panics();
     let mut guard = MARKER.lock().unwrap_or_else(|e| e.into_inner());
     if guard.is_none() {
         let Ok(path) = std::env::var("VERIF_MARKER") else {
